@@ -63,6 +63,42 @@ static void list_dir_rec(size_t url, size_t path) { __CPROVER_assert(path < IDCA
 static void serve_rec(size_t path) { __CPROVER_assert(path < IDCAP && g_id_checked[path], "the file that is opened and streamed was validated by check_in_document_root (normalised, alias-mapped, symlink-checked)"); g_served++; g_served_id = path; }
 static void content_type_rec(size_t path) { }
 '''
+
+PRE += r'''
+/* ---- check_in_document_root: strings are opaque ids.  Label choice (ids are only ever handed to recorders): the i-th alias is (AL_BASE+2i, AL_BASE+2i+1).
+ *      normalize_path, is_file_prefix, substr, empty(), [0], root+normal and is_in_root are recorders / oracles with ghost answers chosen by the harness. */
+#define ID_SLASH 1
+#define AL_BASE 1000
+#define AL_FIRST(i) (AL_BASE + 2 * (size_t)(i))
+#define AL_SECOND(i) (AL_BASE + 2 * (size_t)(i) + 1)
+struct fsrv2 { size_t document_root_; unsigned alias_n; bool check_symlinks_; };
+size_t g_in_id, g_norm_id, g_sub_id, g_cat_id, g_inroot_res;        /* fresh labels chosen by the harness */
+int g_norm_calls, g_bad_arg, g_any_true, g_sub_calls, g_seen_k, g_cat_calls, g_inroot_calls, g_chop_calls;
+size_t g_true_ref, g_sub_src, g_sub_ref, g_cat_a, g_cat_b, g_inroot_path, g_inroot_root, g_chop_id;
+size_t g_cat_size; bool g_norm_empty, g_sub_empty, g_inroot_ok; char g_norm_c0, g_sub_c0, g_cat_last;
+static void normalize_path_rec(size_t *p) { if(*p != g_in_id || g_norm_calls) g_bad_arg = 1; if(g_norm_calls < 2) g_norm_calls++; *p = g_norm_id; }
+static bool prefix_rec2(size_t ref, size_t normal)
+{
+  int r; if(normal != g_norm_id) g_bad_arg = 1;
+  if(g_k < 100000 && ref == AL_FIRST(g_k)) g_seen_k = 1;
+  if(r) { g_any_true = 1; g_true_ref = ref; return 1; }
+  return 0;
+}
+static size_t substr_rec(size_t src, size_t ref) { if(g_sub_calls < 2) g_sub_calls++; g_sub_src = src; g_sub_ref = ref; return g_sub_id; }
+static bool empty_rec(size_t id) { if(id == ID_SLASH) return 0; if(id == g_norm_id) return g_norm_empty; if(id == g_sub_id) return g_sub_empty; g_bad_arg = 1; return 0; }
+static char char_at_rec(size_t id, size_t at) { if(at != 0) g_bad_arg = 1; if(id == ID_SLASH) return '/'; if(id == g_norm_id) return g_norm_c0; if(id == g_sub_id) return g_sub_c0; g_bad_arg = 1; return 0; }
+static bool is_in_root_rec(size_t path, size_t root, size_t *real) { if(g_inroot_calls < 2) g_inroot_calls++; g_inroot_path = path; g_inroot_root = root; if(!g_inroot_ok) return 0; *real = g_inroot_res; return 1; }
+static size_t cat_rec(size_t a, size_t b) { if(g_cat_calls < 2) g_cat_calls++; g_cat_a = a; g_cat_b = b; return g_cat_id; }
+static size_t size_rec(size_t id) { if(id != g_cat_id) g_bad_arg = 1; return g_cat_size; }
+static char real_at_rec(size_t id, size_t at) { if(id != g_cat_id || at + 1 != g_cat_size) g_bad_arg = 1; return g_cat_last; }
+static void resize_rec(size_t *id, size_t to) { if(to + 1 != g_cat_size) g_bad_arg = 1; if(g_chop_calls < 2) g_chop_calls++; g_chop_id = *id; }
+/* the (root, path) pair the property allows for this request: the document root with the normalised path when no alias matches it,
+   otherwise the target of AN alias whose name is a whole-component prefix of the normalised path, with that prefix stripped ("/" if nothing is left) */
+#define PAIR_OK(R, Q) ( g_any_true ? ((R) == g_true_ref + 1 && g_sub_calls == 1 && g_sub_src == g_norm_id && g_sub_ref == g_true_ref && (Q) == (g_sub_empty ? (size_t)ID_SLASH : g_sub_id)) \
+                                   : ((R) == self->document_root_ && (Q) == g_norm_id && g_sub_calls == 0 && (g_k < self->alias_n ==> g_seen_k)) )
+#define Q_EMPTY(Q) ((Q) == ID_SLASH ? 0 : (Q) == g_norm_id ? g_norm_empty : g_sub_empty)
+#define Q_C0(Q) ((Q) == ID_SLASH ? '/' : (Q) == g_norm_id ? g_norm_c0 : g_sub_c0)
+'''
 functions = [
     dict(stub=True, cname='verif_memcmp', sig='int verif_memcmp(char const *a, char const *b, size_t n)',
          contract='/* C11 memcmp: 0 iff the n bytes are equal (arbitrary ghost index) */\n__CPROVER_requires(n <= BUF_CAP && __CPROVER_r_ok(a, n) && __CPROVER_r_ok(b, n))\n__CPROVER_assigns()\n'
@@ -94,6 +130,36 @@ __CPROVER_ensures(__CPROVER_return_value ==> (g_canon_calls == 1 && g_canon_ok &
                   g_prefix_calls == 1 && g_prefix_ok && g_prefix_a == root && g_prefix_b == g_canon_res && *real == g_canon_res))
 __CPROVER_ensures(!__CPROVER_return_value ==> (!g_canon_ok || !g_prefix_ok))
 '''),
+    dict(cname='fs_check_in_document_root', file=F, locate=lit('bool file_server::check_in_document_root(std::string normal,std::string &real)'), sig='bool fs_check_in_document_root(struct fsrv2 *self, size_t normal, size_t *real)',
+         refs=['real'], members=['document_root_', 'check_symlinks_'],
+         rewrites=[(r'normalize_path\((\w+)\)', r'normalize_path_rec(&\1)', 0), (r'std::string root\b', 'size_t root', 1), (r'alias_\.size\(\)', 'self->alias_n', 1),
+                   (r'std::string const &ref=', r'size_t ref = ', 0), (r'alias_\[(\w+)\]\.first', r'AL_FIRST(\1)', 0), (r'is_file_prefix\(([^,()]+),(\w+)\)', r'prefix_rec2(\1, \2)', 1),
+                   (r'alias_\[(\w+)\]\.second', r'AL_SECOND(\1)', 0), (r'(\w+)\.substr\((\w+)\.size\(\)\)', r'substr_rec(\1, \2)', 0), (r'normal\.empty\(\)', 'empty_rec(normal)', 0),
+                   (r'normal="/"', 'normal = ID_SLASH', 0), (r'normal\[(\w+)\]', r'char_at_rec(normal, \1)', 0), (r'is_in_root\(([^,()]+),([^,()]+),real\)', r'is_in_root_rec(\1, \2, &real)', 0),
+                   (r'real = ([\w>-]+) \+ ([\w>-]+);', r'real = cat_rec(\1, \2);', 0), (r'real\.size\(\)', 'size_rec(real)', 0), (r'real\[([^\]]+)\]', r'real_at_rec(real, \1)', 0),
+                   (r'real\.resize\(([^;]+)\);', r'resize_rec(&real, \1);', 0)],
+         loops={0: r'''
+__CPROVER_assigns(i, root, normal, g_bad_arg, g_any_true, g_true_ref, g_seen_k, g_sub_calls, g_sub_src, g_sub_ref)
+__CPROVER_loop_invariant(i <= self->alias_n && root == self->document_root_ && normal == g_norm_id && g_any_true == 0 && g_sub_calls == 0 && g_norm_calls == 1)
+__CPROVER_loop_invariant(g_bad_arg == __CPROVER_loop_entry(g_bad_arg))
+__CPROVER_loop_invariant((g_k < i && g_k < self->alias_n) ==> g_seen_k)
+__CPROVER_decreases(self->alias_n - i)
+'''},
+         contract=r'''
+__CPROVER_requires(__CPROVER_r_ok(self, sizeof(*self)) && __CPROVER_rw_ok(real, sizeof(*real)) && self->alias_n <= 100000)
+__CPROVER_requires(g_norm_calls == 0 && g_bad_arg == 0 && g_any_true == 0 && g_sub_calls == 0 && g_seen_k == 0 && g_cat_calls == 0 && g_inroot_calls == 0 && g_chop_calls == 0 && normal == g_in_id)
+__CPROVER_requires(g_in_id == 2 && g_norm_id == 3 && g_sub_id == 4 && g_cat_id == 5 && g_inroot_res == 6 && self->document_root_ == 7)
+__CPROVER_assigns(*real, g_norm_calls, g_bad_arg, g_any_true, g_true_ref, g_seen_k, g_sub_calls, g_sub_src, g_sub_ref, g_cat_calls, g_cat_a, g_cat_b, g_inroot_calls, g_inroot_path, g_inroot_root, g_chop_calls, g_chop_id)
+/* C13: a request is accepted only after the path was normalised ('.', '..', '//' resolved) exactly once, before any alias or root test; every string the tests look at is
+   the normalised path or derived from it */
+__CPROVER_ensures(__CPROVER_return_value ==> (g_norm_calls == 1 && g_bad_arg == 0))
+/* ... with symlink checking, the name that is served is the RESOLVED name is_in_root() accepted for exactly the allowed (root, path) pair */
+__CPROVER_ensures((__CPROVER_return_value && self->check_symlinks_) ==> (g_inroot_calls == 1 && g_inroot_ok && PAIR_OK(g_inroot_root, g_inroot_path) && *real == g_inroot_res && g_cat_calls == 0 &&
+                  !Q_EMPTY(g_inroot_path) && Q_C0(g_inroot_path) == '/'))
+/* ... without it, the name is root ++ path for exactly the allowed pair (the path is non-empty and absolute, so the concatenation stays below the root), at most one trailing '/' removed */
+__CPROVER_ensures((__CPROVER_return_value && !self->check_symlinks_) ==> (g_inroot_calls == 0 && g_cat_calls == 1 && PAIR_OK(g_cat_a, g_cat_b) && *real == g_cat_id &&
+                  !Q_EMPTY(g_cat_b) && Q_C0(g_cat_b) == '/' && g_chop_calls <= 1 && (g_chop_calls == 1 ==> (g_chop_id == g_cat_id && g_cat_last == '/'))))
+'''),
     dict(cname='fs_main', file=F, locate=lit('void file_server::main(std::string file_name)'), sig='void fs_main(struct fsrv *self, size_t file_name)', members=['list_directories_', 'allow_deflate_', 'async_', 'index_file_'],
          rewrites=[(r'std::string (path\w*);', r'size_t \1 = 0;', 2), (r'check_in_document_root\(file_name\+"/" \+ index_file_ ,path2\)', 'check_in_document_root_rec(str_cat_slash(file_name, index_file_), &path2)', 0),
                    (r'check_in_document_root\(file_name,path\)', 'check_in_document_root_rec(file_name, &path)', 0), (r'check_in_document_root\((\w+),(\w+)\)', r'check_in_document_root_rec(\1, &\2)', 0),
@@ -112,9 +178,10 @@ __CPROVER_ensures(g_served + g_listed <= 1)
 '''),
 ]
 
+REPLAY13 = dict(replay='c13:docroot', replay_link=['-fno-access-control', '-L{BUILD}', '-lcppcms', '-L{BUILD}/booster', '-lbooster', '-lpthread'], replay_exhaustive='every request path of 0..4 segments over {a.txt, sub, b.txt, ., .., empty, al, alx, link_out, link_in, secret.txt, c.txt, link_file, rootx, outside} x leading/trailing slash x check_symlink on/off x 0..2 aliases: the REAL check_in_document_root on an on-disk sandbox with symlinks leaving the root, against the root/alias/realpath oracle written from the property (1.3 million pairs)')
 jobs = [
     dict(name='is_directory_separator', props=P, enforce='is_directory_separator', harness='char c; is_directory_separator(c); VERIF_REACH;'),
-    dict(name='is_file_prefix', props=P, enforce='is_file_prefix', replace=['verif_memcmp', 'is_directory_separator'], harness=r'''
+    dict(name='is_file_prefix', props=P, **REPLAY13, enforce='is_file_prefix', replace=['verif_memcmp', 'is_directory_separator'], harness=r'''
     size_t pn, fn, k; __CPROVER_assume(pn <= BUF_CAP && fn <= BUF_CAP); g_k = k;
     char *p = malloc(pn + 1); char *f = malloc(fn + 1); __CPROVER_assume(p != NULL && f != NULL);
     is_file_prefix(p, pn, f, fn); VERIF_REACH;'''),
@@ -134,13 +201,19 @@ jobs = [
     size_t k; __CPROVER_assume(k < rn);
     __CPROVER_assert(pn != rn || path[k] == ref[k], "normalised path equals the reference normalisation ('.', '..', '//' resolved; never above the root)");
     VERIF_REACH;''', witness=dict(bufs=['path']), replay='c13:normalize_path', replay_link=['-L{BUILD}', '-lcppcms', '-L{BUILD}/booster', '-lbooster']),
-    dict(name='fs_is_in_root', props=P, enforce='fs_is_in_root', harness='size_t a, b, r, j, cr; int c1, c2; g_joined_id = j; g_canon_res = cr; g_canon_ok = c1 != 0; g_prefix_ok = c2 != 0; g_canon_calls = 0; g_prefix_calls = 0; fs_is_in_root(a, b, &r); VERIF_REACH;'),
+    dict(name='fs_is_in_root', props=P, **REPLAY13, enforce='fs_is_in_root', harness='size_t a, b, r, j, cr; int c1, c2; g_joined_id = j; g_canon_res = cr; g_canon_ok = c1 != 0; g_prefix_ok = c2 != 0; g_canon_calls = 0; g_prefix_calls = 0; fs_is_in_root(a, b, &r); VERIF_REACH;'),
+    dict(name='fs_check_in_document_root', props=P, **REPLAY13, enforce='fs_check_in_document_root', harness=r'''
+    struct fsrv2 f; size_t r, k, cs; g_cat_size = cs; int b1, b2, b3; char c1, c2, c3;
+    g_k = k; g_in_id = 2; g_norm_id = 3; g_sub_id = 4; g_cat_id = 5; g_inroot_res = 6; f.document_root_ = 7;
+    g_norm_empty = b1 != 0; g_sub_empty = b2 != 0; g_inroot_ok = b3 != 0; g_norm_c0 = c1; g_sub_c0 = c2; g_cat_last = c3;
+    g_norm_calls = 0; g_bad_arg = 0; g_any_true = 0; g_sub_calls = 0; g_seen_k = 0; g_cat_calls = 0; g_inroot_calls = 0; g_chop_calls = 0;
+    fs_check_in_document_root(&f, 2, &r); VERIF_REACH;'''),
     dict(name='fs_main', props=P, enforce='fs_main', harness='struct fsrv f; size_t fn; g_next_id = 4; g_id_checked[0] = 0; g_id_checked[1] = 0; g_id_checked[2] = 0; g_id_checked[3] = 0; g_served = 0; g_listed = 0; g_404 = 0; g_redirect = 0; fs_main(&f, fn); VERIF_REACH;'),
 ]
 
 UNIT = dict(
     name='fileserver', pre=PRE, functions=functions, jobs=jobs,
     trusted=['fileserver: std::string path is (pointer, length) in a buffer with room for the prepended "/"; std::find / std::copy / "/" + path are small C loops (R8/R9); memcmp is a stub with the C contract'],
-    not_covered={'C13': ['check_in_document_root alias loop and is_in_root (std::string / realpath), symlink resolution, percent-decoding order, directory listings, file-system behaviour',
+    not_covered={'C13': ['std::string / realpath themselves (ids and oracles in the contracts), symlink resolution by the OS, percent-decoding order, directory listings, file-system behaviour',
                          'normalize_path for paths longer than 8 bytes (bounded stand-in only: two-pointer in-place compaction, DESIGN probe D)']},
 )
